@@ -4,7 +4,7 @@ from vt.values import canon
 
 LEVEL = "exploration"
 N_CASES = {"quick": 256, "thorough": 6400}
-CAP = {"quick": 40, "thorough": 400}
+CAP = {"quick": 40, "thorough": 200}
 REQS_PER_SCHEMA = 3
 MIN_NONTRIVIAL = 30
 RULE = ("case = random schema with a mutation root (2-6 root fields, nested lists/objects, @vtgate suspension points) x "
